@@ -16,7 +16,7 @@ from ..runner import Outcome, fail, open_features
 from ..strategies import Cfg, query_case
 from ..world import build_entities, enc
 from ..build import build_query
-from ..qcheck import var_domains, satisfying, compare_lists, case_features
+from ..qcheck import var_domains, satisfying, compare_lists, case_features, abandon
 
 ID = "C01"
 TITLE = "A single-variable query is an exact, ordered, duplicate-free domain filter"
@@ -138,7 +138,15 @@ def check(case) -> Outcome:
     except Exception as e:
         return fail("exception", f"building: {type(e).__name__}: {e}; expected {expected}", nontrivial=nontrivial,
                     classes=classes, features=feats)
-    # "iterating the result" holds for every iteration: the same query object is evaluated three times
+    # "iterating the result" holds for every iteration: the same query object is evaluated three times, possibly after
+    # an iteration that the consumer gave up after a few results
+    try:
+        abandon(built.q, case.get("abandon_first", 0))
+    except Exception as e:
+        return fail("exception", f"abandoned evaluation: {type(e).__name__}: {e}", nontrivial=nontrivial,
+                    classes=classes, features=feats)
+    if case.get("abandon_first"):
+        classes.append("after_abandoned_evaluation")
     for attempt in (1, 2, 3):
         try:
             got = [(r,) for r in built.q.evaluate()]
